@@ -278,6 +278,11 @@ def c10_footprint(ctx, carrier, step_ft, wind):
         p.Calculator(_config={'max_calc_step_size_feet': step_ft, 'cMinimumVelocity': 1e5}).fire(shot, U.Foot(4 * step_ft), U.Foot(step_ft))
     except p.RangeError:
         pass
+    gm = _module_globals()
+    sm = snap({'shot': shot, 'other_calc': vars(other._calc), 'other_shot': oshot})
+    ctx.check('writes_confined_to_own_solver_object', g0 == gm and s0 == sm,
+              info={'after': 'fire / zero / failing fire of a shot on another sight line', 'globals_changed': [k for k in g0 if g0[k] != gm.get(k)][:5],
+                    'objects_changed': [k for k in s0 if s0[k] != sm.get(k)][:5]})
     # an unrelated shot in a vacuum (its own calculator, its own objects), other atmospheres and drag models built along the way
     vshot = p.Shot(p.Weapon(U.Inch(2.0)), p.Ammo(p.DragModel(0.3, p.TableG1), U.FPS(2500.0)), atmo=p.Vacuum(U.Foot(1000.0), U.Celsius(5.0)))
     p.Calculator(_config={'max_calc_step_size_feet': step_ft}).fire(vshot, U.Foot(3 * step_ft), U.Foot(step_ft))
